@@ -252,6 +252,7 @@ fn recovery_core_opts(mut cfg: RingCfg, unsync: bool, t: &mut Tape, obs: &mut Ob
             };
             // ... and whether it began with two stations claiming the token in the same instant (their
             // silence time-outs ran out together): upstream issue #25, a recorded known finding
+            let mut early_claim = false;
             let claim_race = lockstep && {
                 let b = sim.bus.0.borrow();
                 let tr = &b.trace;
@@ -268,11 +269,27 @@ fn recovery_core_opts(mut cfg: RingCfg, unsync: bool, t: &mut Tape, obs: &mut Ob
                         let (a, bb) = (&tr[k - 1], &tr[k]);
                         let is_claim = |r: &crate::simbus::TxRecord| r.bytes.len() == 3 && r.bytes[0] == 0xDC && r.bytes[1] == r.bytes[2];
                         let quiet_before = if k >= 2 { a.start_ns - tr[k - 2].end_ns >= 5 * cfg.bits_ns(u64::from(cfg.slot_bits)) } else { true };
-                        is_claim(a) && is_claim(bb) && a.sender != bb.sender && quiet_before
+                        // the known finding is about two stations that each waited for their OWN
+                        // silence time-out (6 + 2 addr) Tslot; a station claiming earlier is
+                        // something else
+                        let silence_from = if k >= 2 { tr[k - 2].end_ns } else { i64::MIN };
+                        let waited = |r: &crate::simbus::TxRecord| {
+                            let Some(nd) = sim.nodes.get(r.sender) else { return false };
+                            let since = silence_from.max(nd.online_at * 1000);
+                            let tl = cfg.bits_ns(u64::from(cfg.slot_bits) * (6 + 2 * u64::from(nd.addr)));
+                            r.start_ns - since >= tl - 2000
+                        };
+                        if is_claim(a) && is_claim(bb) && a.sender != bb.sender && quiet_before && !(waited(a) && waited(bb)) {
+                            early_claim = true;
+                        }
+                        is_claim(a) && is_claim(bb) && a.sender != bb.sender && quiet_before && waited(a) && waited(bb)
                     }
                     _ => false,
                 }
             };
+            if early_claim {
+                fail!("claim-before-timeout", "two stations claimed the token together and at least one of them did so before its own silence time-out (6 + 2 addr) Tslot had elapsed; they transmit simultaneously ever since: no single agreed ring over {:?} within T_rec = {} Tslot after the last disturbance at {} us: {}{}", e, t_rec / slot, last_disturbance, why, dump_tail(&sim));
+            }
             if claim_race {
                 fail!("claim-race-lockstep", "two stations claimed the token in the same instant and transmit simultaneously ever since (both deaf while transmitting): no single agreed ring over {:?} within T_rec = {} Tslot after the last disturbance at {} us: {}{}", e, t_rec / slot, last_disturbance, why, dump_tail(&sim));
             }
